@@ -143,13 +143,19 @@ fn engine_rules(h: &Hist, out: &Outcome, o: &mut OracleOut) {
             }
         }
     }
-    match &out.end {
+    // a run that hit the step limit after tens of thousands of steps without a single event is a
+    // livelock (e.g. a future polled for ever: an async wait group never released), not a long run
+    let livelock = matches!(out.end, End::StepLimit) && out.counters.steps.saturating_sub(LAST_LOG_STEP.load(std::sync::atomic::Ordering::SeqCst)) > 50_000;
+    let livelock_desc = format!("livelock: no event during the last {} scheduler steps; tasks {:?}", out.counters.steps.saturating_sub(LAST_LOG_STEP.load(std::sync::atomic::Ordering::SeqCst)), out.tasks);
+    let end_view = if livelock { End::Deadlock(livelock_desc) } else { out.end.clone() };
+    match &end_view {
         End::Stuck(desc) | End::Deadlock(desc) => {
             // attribute to the operations that never returned
             let mut attributed = false;
             let close_invoked = h.ops.iter().any(|x| matches!(x.op, Op::Close));
             for op in h.ops.iter().filter(|x| !x.returned()) {
-                if matches!(op.op, Op::Barrier) {
+                if matches!(op.op, Op::Barrier | Op::Sleep { .. } | Op::Jump { .. }) {
+                    // waiting for the others / for the clock: a consequence, not a cause
                     continue;
                 }
                 // an operation that never returns belongs to the property that promises its
